@@ -64,6 +64,9 @@ type config struct {
 	// interleaving for the whole run. Jumbo makes some datagrams as large as UDP allows.
 	Cloud bool `json:"cloud,omitempty"`
 	Jumbo bool `json:"jumbo,omitempty"`
+	// Static are the server's default-tags: the tag stage adds them to every series (they are part of the series
+	// identity the oracle expects); some collide with tags that lines or the cloud provider carry themselves.
+	Static []string `json:"static_tags,omitempty"`
 }
 
 // cloudSources is the host pool of cloud executions; cloudTags / cloudID is what the scripted provider answers.
@@ -261,6 +264,9 @@ func generatorTo(g int, cfg config, rng *rand.Rand, emit func([]*statsd.Datagram
 					// what the cloud stage makes of it: the instance's tags are appended, the host becomes the instance id
 					tags = append(append([]string(nil), tags...), cloudTags(src)...)
 					src = cloudID(src)
+				}
+				if len(cfg.Static) > 0 {
+					tags = append(append([]string(nil), tags...), cfg.Static...)
 				}
 				switch typ := 1 + rng.Intn(4); typ {
 				case 1:
@@ -799,6 +805,7 @@ func runServerExecution(t *testing.T, r *mon.Run, cfg config) {
 		MaxConcurrentEvents: 4, ReceiveBatchSize: cfg.RecvBatch, Namespace: cfg.Namespace, StatserType: gostatsd.StatserNull, PercentThreshold: []float64{90},
 		HistogramLimit: 10, ServerMode: "standalone", DisableInternalEvents: true, Viper: v, TransportPool: transport.NewTransportPool(logrus.StandardLogger(), v),
 	}
+	srv.DefaultTags = append(gostatsd.Tags(nil), cfg.Static...)
 	var prov *scriptedProvider
 	if cfg.Cloud {
 		// composed like cmd/gostatsd does: the cache is a runnable of the server and its CachedInstances
@@ -906,7 +913,7 @@ func runServerExecution(t *testing.T, r *mon.Run, cfg config) {
 		r.Event("cloud_lookup_sources", int(prov.ips.Load()))
 	}
 	if multi >= 1 {
-		r.Nontrivial(fmt.Sprintf("server R%d P%d W%d Q%d G%d B%d %s %s cloud%v jumbo%v", cfg.Readers, cfg.Parsers, cfg.Workers, cfg.Queue, cfg.Gens, cfg.RecvBatch, cfg.Namespace, cfg.Expiry, cfg.Cloud, cfg.Jumbo))
+		r.Nontrivial(fmt.Sprintf("server R%d P%d W%d Q%d G%d B%d %s %s cloud%v jumbo%v static%v", cfg.Readers, cfg.Parsers, cfg.Workers, cfg.Queue, cfg.Gens, cfg.RecvBatch, cfg.Namespace, cfg.Expiry, cfg.Cloud, cfg.Jumbo, cfg.Static))
 	}
 }
 
@@ -954,6 +961,7 @@ func TestCheck(t *testing.T) {
 				cfg.Readers = 2 // one 64 KiB buffer per message of a batch and reader
 			}
 			cfg.Cloud, cfg.Jumbo = rng.Intn(2) == 0, rng.Intn(2) == 0
+			cfg.Static = [][]string{nil, nil, {"st:1"}, {"env:prod", "dc:x"}, {"dup", "zone:9"}}[rng.Intn(5)]
 			runServerExecution(t, r, cfg)
 		} else {
 			cfg.Mode = "pipeline"
